@@ -49,6 +49,26 @@ def env():
 ENGINE = bytes.fromhex("80001f8880a1b2c3d4e5f6")
 
 
+def client_user(st):
+    """the `gufo.snmp.user.User` a caller would build for the agent-side user description `st`"""
+    from gufo.snmp.user import Aes128Key, DesKey, KeyType, Md5Key, Sha1Key, User
+    kt = {"password": KeyType.Password, "master": KeyType.Master, "localized": KeyType.Localized}
+    ak = pk = None
+    if st.auth_alg:
+        ak = (Md5Key if st.auth_alg == 1 else Sha1Key)(st.auth_secret, key_type=kt[st.auth_key_type])
+    if st.priv_alg:
+        pk = (DesKey if st.priv_alg == 1 else Aes128Key)(st.priv_secret, key_type=kt[st.priv_key_type])
+    return User(st.user.decode(), auth_key=ak, priv_key=pk)
+
+
+def client_kwargs(st, with_engine_id=True):
+    """constructor / set_keys arguments for the raw v3 socket, obtained the way the clients obtain them:
+    through the key classes of user.py (so that layer is exercised by every v3 session of the checks)"""
+    u = client_user(st)
+    return dict(engine_id=st.engine_id if with_engine_id else b"", user_name=u.name, auth_alg=u.get_auth_alg(),
+                auth_key=u.get_auth_key(), priv_alg=u.get_priv_alg(), priv_key=u.get_priv_key())
+
+
 class Peer:
     """one side-by-side description of a session configuration and of the agent that serves it"""
 
@@ -96,7 +116,7 @@ class Peer:
             return ag.make_sock(e.fast, e.agent, 1, community=self.community, timeout_ns=timeout_ns)
         if self.kind == "v2c":
             return ag.make_sock(e.fast, e.agent, 2, community=self.community, timeout_ns=timeout_ns)
-        kw = self.state.client_kwargs(with_engine_id=not self.discover)
+        kw = client_kwargs(self.state, with_engine_id=not self.discover)
         return ag.make_sock(e.fast, e.agent, 3, timeout_ns=timeout_ns, **kw)
 
     def decode(self, dg):
@@ -147,7 +167,14 @@ class Conv:
         self.e = e or env()
         self.peer = peer
         self.e.agent.recv_all()          # drop leftovers of earlier conversations
-        self.sock = sock if sock is not None else peer.make_sock(self.e)
+        self.ctor_error = None
+        if sock is None:
+            r = ncall(lambda: peer.make_sock(self.e))
+            if r[0] == "ok":
+                sock = r[1]
+            else:
+                self.ctor_error = r      # a session that cannot even be created: every call reports it
+        self.sock = sock
         self.req = None
         self.raw = None
 
@@ -155,6 +182,9 @@ class Conv:
         return self.e.fast.GetIter(oid) if maxrep is None else self.e.fast.GetIter(oid, maxrep)
 
     def send(self, op, arg=None):
+        if self.sock is None:
+            self.raw, self.req = [], None
+            return self.ctor_error
         f = getattr(self.sock, self.SEND[op])
         r = ncall((lambda: f()) if op == "refresh" else (lambda: f(arg)))
         dgs = self.e.agent.recv_all(expect=1 if r[0] == "ok" else 0, wait=0.05 if r[0] == "ok" else 0.0)
@@ -172,6 +202,8 @@ class Conv:
             self.e.agent.send(d)
 
     def recv(self, op, it=None):
+        if self.sock is None:
+            return self.ctor_error
         f = getattr(self.sock, self.RECV[op])
         if op in ("getnext", "getbulk"):
             return ncall(lambda: f(it))
@@ -284,6 +316,9 @@ def run_async(main, script):
 
     async def runner():
         loop = asyncio.get_running_loop()
+        # the async client's add_reader(fd, fut.set_result, None) can fire twice when two datagrams are queued;
+        # asyncio then logs an InvalidStateError for the second call: noise, not an outcome
+        loop.set_exception_handler(lambda lp, ctx: None)
         transport, _ = await loop.create_datagram_endpoint(Proto, local_addr=("127.0.0.1", 0))
         port = transport.get_extra_info("sockname")[1]
         try:
